@@ -16,7 +16,7 @@ Import ListNotations.
 From ZV.Conc Require Import Sched PoolModel PoolLemmas PoolInvDefs PoolInv3 PoolInv4 PoolInv9 PoolTheorems PoolLive PoolExamples.
 From ZV.Conc Require Import PoolSafety PoolTermDefs PoolTermStep PoolTerm PoolFair PoolFairEx PoolLimit PoolFault.
 From ZV.Conc Require PoolShared.
-From ZV.Conc Require Import PoolAbs PoolLift.
+From ZV.Conc Require Import PoolAbs PoolLift PoolInv11.
 
 (* the circular buffer agrees with the FIFO list of accepted-but-not-started jobs (both queueSize > 1 and the
    hand-off pool queueSize = 1); queueEmpty is exact *)
@@ -370,3 +370,29 @@ Example shared_example_spins :
   nth 1 (PoolShared.a_progs s) [] = [PoolShared.APost; PoolShared.AResize 2; PoolShared.APost; PoolShared.AWait] /\
   forall n, PoolShared.arun (repeat 1 n) s = s.
 Proof. exact PoolShared.ex_spins. Qed.
+
+
+(* ====================================================================================================================
+   Round 3, after the repair baece04 (POOL_resize also broadcasts queuePushCond; model: pc RBcastPush).
+   "A blocking post returns once capacity exists": in every reachable state of the current code a thread asleep in POOL_add
+   still faces a full queue (and shutdown is not set), or a broadcast of queuePushCond is among the coming operations of
+   some thread (npb2 counts the threads at WBcast1 / WBcast2 / RBcast / RBcastPush / FUnlock / FBcastPush).  Compared with
+   pool_no_lost_wakeup_pushers the escape "or a worker is busy" is gone: the poster does not depend on the end of a running
+   job any more.  Before the repair this failed (real code: a POOL_add blocked for ever after POOL_resize(2) created an idle
+   thread, docs/C12.md 9.1). *)
+Theorem pool_blocked_add_has_reason : forall bodies progs n q sched t x j,
+  progs <> [] -> 1 <= n ->
+  let s := reach true bodies progs n q sched in
+  nth_error (st s) t = Some x -> t_pc x = PAsleep j ->
+  (is_full (sp s) = true /\ shutdown (sp s) = false) \/ 1 <= sumf npb2 (st s).
+Proof. exact blocked_add_has_reason. Qed.
+Print Assumptions pool_blocked_add_has_reason.
+
+(* the finding's situation is reachable and the resize wakes the poster: pool(1 thread, hand-off), client 0 blocks posting its
+   second job, client 1 raises threadLimit to 2 - queue not full, poster asleep, one broadcast pending; two steps later it is awake *)
+Example pool_resize_wakes_blocked_add :
+  let s := reach true [[]; []] rw_progs 1 0 rw_sched in
+  let s2 := reach true [[]; []] rw_progs 1 0 (rw_sched ++ [(1,0); (1,0)]) in
+  t_pc (nth 0 (st s) dthread) = PAsleep 1 /\ is_full (sp s) = false /\ shutdown (sp s) = false /\ busy (sp s) = 1 /\ sumf npb2 (st s) = 1 /\
+  t_pc (nth 0 (st s2) dthread) = PLock KAdd 1.
+Proof. exact resize_wakes_blocked_add. Qed.
